@@ -520,3 +520,44 @@ add('c13-custom-labels-sorted', ['C13'], 'fire', 'Plate.__init__',
     'self.row_names = rows', 'self.row_names = sorted(rows)', 'custom labels are stored in another order than given')
 add('c13-custom-labels-copied', ['C13', 'C04'], 'silent', 'Plate.__init__',
     'self.row_names = rows', 'self.row_names = list(rows)', 'an order-preserving copy of the given labels')
+
+# ------------------------------------------------------------------------------------------------ rules added after round 5
+add('c13-labels-compared-as-strings', ['C13', 'C07'], 'fire', 'Slicer.parse_slice',
+    '        if start is not None:\n            if isinstance(start, str):',
+    "        if type(start) is type(stop) and start is not None and start > stop:\n            raise ValueError('start lies after stop')\n        if start is not None:\n            if isinstance(start, str):",
+    "'9':'10' is refused: labels are compared as strings", module=S)
+add('c13-numpy-scalars-truncated', ['C13', 'C07'], 'fire', 'PlateSlicer.__init__',
+    'super().__init__(plate.wells, plate.row_names, plate.column_names, item)',
+    'super().__init__(plate.wells, plate.row_names, plate.column_names, int(item) if isinstance(item, numpy.number) else item)',
+    'a fractional numpy index selects a well')
+add('c13-getitem-refuses-one', ['C13', 'C07'], 'fire', 'Plate.__getitem__',
+    'return PlateSlicer(self, item)', "if item in (True, False):\n        raise TypeError('bool index')\n    return PlateSlicer(self, item)",
+    'plate[1] is refused: 1 == True')
+add('c13-getitem-keywords', ['C13', 'C07', 'C17'], 'silent', 'Plate.__getitem__',
+    'return PlateSlicer(self, item)', 'return PlateSlicer(plate=self, item=item)', 'keyword arguments')
+add('c03-deficit-rounded-for-display', ['C03', 'C11'], 'fire', 'Container.fill_to',
+    'if round(required_quantity, config.internal_precision) < 0:',
+    "if round(required_quantity, config.precisions[quantity_unit] if quantity_unit in config.precisions else config.precisions['default']) < 0:",
+    'a target half a millilitre below the present content is accepted')
+add('c03-solvent-is-solute', ['C03', 'C12'], 'fire', 'Container.create_solution_from',
+    'if solvent == solute:', 'if solvent is solute:', 'an equal substance read back from a container is not recognised')
+add('c08-stage-name-by-identity', ['C08', 'C16'], 'fire', 'Recipe.end_stage',
+    'if self.current_stage != name:', 'if self.current_stage is not name:', 'equal names built at run time are different objects')
+add('c16-declared-check-on-cut-name', ['C16'], 'fire', 'Recipe.remove',
+    'if destination.plate.name not in self.results:', "if destination.plate.name.split('[')[0] not in self.results:",
+    'the name looked up is not the name of the operand')
+add('c02-repr-sorts-selection', ['C02', 'C04', 'C07', 'C13'], 'fire', 'PlateSlicer.__repr__',
+    "    if isinstance(self.slices, list):\n        result =", "    if isinstance(self.slices, list):\n        wells = self.slices\n        wells.sort(key=str)\n        result =",
+    'formatting the name reorders the selection')
+add('c02-repr-sorted-copy-for-display', ['C02', 'C07', 'C13'], 'silent', 'PlateSlicer.__repr__',
+    "for item in self.slices])}]", "for item in sorted(self.slices, key=str)])}]".replace('sorted(self.slices, key=str)', 'list(self.slices)'),
+    'an order-preserving copy used for display only')
+add('c08-solutes-sorted-at-declaration', ['C05', 'C08'], 'fire', 'Recipe.create_solution',
+    "    solute_names = ', '.join(", "    if isinstance(solute, list):\n        solute.sort(key=lambda s_: s_.name)\n    solute_names = ', '.join(",
+    'per-solute values are paired with other solutes')
+add('c10-empty-collection-means-all', ['C10'], 'fire', 'PlateSlicer.get_volumes',
+    'if substance is None:', 'if not substance:', 'an empty collection of substances returns total volumes')
+add('c14-declaration-checks-digits', ['C14'], 'fire', 'Recipe.transfer',
+    '    if not isinstance(quantity, str):\n        raise TypeError("Volume must be a str. (\'5 mL\')")',
+    '    if not isinstance(quantity, str):\n        raise TypeError("Volume must be a str. (\'5 mL\')")\n    if not quantity.split(\' \')[0].replace(\'.\', \'\', 1).isdigit():\n        raise ValueError(\'bad amount\')',
+    "'5e-1 mL' is refused by Recipe.transfer only")
